@@ -1,0 +1,61 @@
+//go:build verif
+
+package fasthttp
+
+// C28 / C29: the []argsKV storage layer as an ordered multimap. Checked by /verif/gocv (comment-only; compiled to
+// nothing).
+//
+//@ celltype argsKV
+//
+// kept(o, key, j): number of entries among the first j of o whose key differs from key -- the position the j-th entry
+// takes after every entry named key has been removed.
+//@ spec keyIs(o []argsKV, key string, j int) bool = string(o[j].key) == key
+//@ spec kept(o []argsKV, key string, j int) int = j <= 0 ? 0 : kept(o, key, j-1) + (string(o[j-1].key) == key ? 0 : 1)
+
+// delAllArgsStable removes every entry named key and keeps the others in their order.
+//@ func delAllArgsStable results r
+//@   property C28 C29
+//@   frame assumed
+//@   modifies args
+//@   ensures[length] len(r) == kept(old(args), key, len(old(args)))
+//@   ensures[order-kept] forall j in [0, len(old(args))): !keyIs(old(args), key, j) ==> cell(r, kept(old(args), key, j)) == cell(old(args), j)
+//@   loop 1:
+//@     invariant[range] 0 <= i && i <= n && n <= len(old(args)) && n == len(args) && rgn(args) == rgn(old(args)) && off(args) == off(old(args))
+//@     invariant[done-count] kept(old(args), key, i + len(old(args)) - n) == i
+//@     invariant[tail-shifted] forall t in [i, n): cell(args, t) == cell(old(args), t + len(old(args)) - n)
+//@     invariant[head-kept] forall j in [0, i + len(old(args)) - n): !keyIs(old(args), key, j) ==> 0 <= kept(old(args), key, j) && kept(old(args), key, j) < i && cell(args, kept(old(args), key, j)) == cell(old(args), j)
+//@     decreases n - i
+
+// delAllArgs has to do the same: deleting one name must not change the order of the entries kept.
+//@ func delAllArgs results r
+//@   property C29
+//@   frame assumed
+//@   modifies args
+//@   ensures[length] len(r) == kept(old(args), key, len(old(args)))
+//@   ensures[order-kept] forall j in [0, len(old(args))): !keyIs(old(args), key, j) ==> cell(r, kept(old(args), key, j)) == cell(old(args), j)
+//@   loop 1:
+//@     invariant[range] 0 <= n && n <= i && i <= len(args) && sameSlice(args, old(args))
+//@     invariant[count] n == kept(old(args), key, i)
+//@     invariant[head-kept] forall j in [0, i): !keyIs(old(args), key, j) ==> 0 <= kept(old(args), key, j) && kept(old(args), key, j) < n && cell(args, kept(old(args), key, j)) == cell(old(args), j)
+//@     invariant[tail-untouched] forall t in [i, len(args)): cell(args, t) == cell(old(args), t)
+//@     decreases len(args) - i
+
+// first(o, key, n): index of the first entry named key among the first n, or n when there is none.
+//@ spec first(o []argsKV, key string, n int) int = n <= 0 ? 0 : (first(o, key, n-1) < n-1 ? first(o, key, n-1) : (string(o[n-1].key) == key ? n-1 : n))
+
+//@ func hasArg results r
+//@   property C28 C29
+//@   pure
+//@   ensures[def] r == exists j in [0, len(h)): keyIs(h, key, j)
+//@   loop 1:
+//@     invariant[none-so-far] 0 <= i && i <= n && n == len(h) && forall j in [0, i): !keyIs(h, key, j)
+//@     decreases n - i
+
+//@ func peekArgStr results r
+//@   property C28 C29
+//@   pure
+//@   ensures[first-match] forall j in [0, len(h)): keyIs(h, k, j) && (forall t in [0, j): !keyIs(h, k, t)) ==> sameSlice(r, h[j].value)
+//@   ensures[none] (forall j in [0, len(h)): !keyIs(h, k, j)) ==> len(r) == 0 && rgn(r) == 0
+//@   loop 1:
+//@     invariant[none-so-far] 0 <= i && i <= n && n == len(h) && forall j in [0, i): !keyIs(h, k, j)
+//@     decreases n - i
